@@ -22,6 +22,7 @@ type relation struct {
 	ipr     [][2]int64 // ip ranges
 	ok      bool
 	errCls  string
+	errText string
 	rawSx   *Sx
 	strings map[[2]string]string
 }
@@ -61,6 +62,7 @@ func runListRel(dir, focus string, env *execEnv, caseStr string) (*relation, []V
 	}
 	if err != nil {
 		rel.errCls = classifyErr(err)
+		rel.errText = err.Error()
 		rel.rawSx = errSx(err)
 		env.count("err:" + rel.errCls)
 		return rel, nil
